@@ -39,8 +39,13 @@ def main():
     suffix = a[a.index("--suffix") + 1] if "--suffix" in a else ""
     seeddir = "%s/%s/_seed" % (root, pid)
     patch = os.path.join(seeddir, letter + ".diff")
+    if os.path.exists(os.path.join(seeddir, letter + ".manual.diff")):
+        # the change was carried over by hand onto a later /repo HEAD (a fix: commit touched the same lines)
+        patch = os.path.join(seeddir, letter + ".manual.diff")
     demo = os.path.join(seeddir, letter + "_demo_test.go")
     meta = {"property": pid, "seed": letter, "tier": tier, "checks_run": props}
+    if patch.endswith(".manual.diff"):
+        meta["note"] = "patch carried over by hand onto /repo HEAD after a fix: commit touched the same lines"
     if not os.path.isdir(WT):
         sh("git -C /repo worktree prune; git -C /repo worktree add --detach %s" % WT)
     sh("git -C %s reset -q --hard && git -C %s clean -fdq && git -C %s checkout -q --detach $(git -C /repo rev-parse HEAD)" % (WT, WT, WT))
